@@ -261,8 +261,9 @@ def write_evidence(prop, tier, seed, level, coverage, wall, violations, assumpti
           'assumptions': assumptions or [], 'wall_s': round(wall, 2), 'violations': int(violations)}
     if extra:
         ev.update(extra)
-    d = ROOT / 'evidence'
-    d.mkdir(exist_ok=True)
+    # evidence/ describes the tree in /repo only; runs against another tree (AMC_REPO: mutants, seeded changes) keep theirs apart
+    d = ROOT / 'evidence' if str(REPO) == '/repo' else BUILD / 'evidence_other_tree'
+    d.mkdir(parents=True, exist_ok=True)
     p = d / (prop + '.json')
     tmp = str(p) + '.tmp'
     Path(tmp).write_text(json.dumps(ev, indent=1))
